@@ -349,6 +349,37 @@ class Contract:
     def name(self):
         return self.fn
 
+    def const_params(self, raw_fn):
+        """{parameter: [allowed constants]} for parameters that are a Const in every input case"""
+        import inspect as _i
+
+        if self.kind != "function" or self.inputs is None or not self.verify:
+            return {}
+        cached = getattr(self, "_const_params", None)
+        if cached is not None:
+            return cached
+        params = set(_i.signature(raw_fn).parameters)
+        out = {}
+        cases = self.cases()
+        for p in params:
+            vals = []
+            ok = bool(cases)
+            for cs in cases:
+                if p not in cs:
+                    ok = False
+                    break
+                sh = cs[p]
+                if isinstance(sh, Const) and (sh.v is None or isinstance(sh.v, (bool, int, float, str))):
+                    if not any(sh.v is v or (type(sh.v) is type(v) and sh.v == v) for v in vals):
+                        vals.append(sh.v)
+                else:
+                    ok = False
+                    break
+            if ok:
+                out[p] = vals
+        object.__setattr__(self, "_const_params", out)
+        return out
+
     def ghost_names(self, raw_fn):
         """Input names that are not parameters of the function: ghost (universally quantified)."""
         import inspect as _i
